@@ -101,6 +101,8 @@ struct World {
     std::vector<char> writerAppending;
     std::vector<int> genKey;          ///< per generation: key index or -1 (not set yet)
     std::vector<unsigned> genKeyedAt; ///< per generation: clock when its key was set (0 = not yet)
+    std::vector<char> genIsFresh;     ///< per generation: created by openForUpdating() as the fresh edition
+    std::vector<unsigned> genUpdateClosedAt; ///< fresh editions: clock when closeForUpdating() returned (0 = not yet)
     std::vector<ReaderRec> readers;
     std::vector<DeleteRec> deletes;
     /// per slice: -1, or the stale generation whose chain suffix (this slice included) was spliced
@@ -184,6 +186,8 @@ struct World {
         genOf[fileno] = g;
         genKey.push_back(-1);
         genKeyedAt.push_back(0);
+        genIsFresh.push_back(0);
+        genUpdateClosedAt.push_back(0);
         (void)key;
         return g;
     }
@@ -328,8 +332,12 @@ struct World {
         for (const auto &d : deletes) {
             if (d.end == 0 || d.end >= startedAt) continue; // the deletion had not returned when the read started
             const bool sameTarget = d.gen >= 0 ? d.gen == g : (d.key == key && genKeyedAt[g] && genKeyedAt[g] < d.start);
+            // known finding: a deletion by key that overlaps closeForUpdating() can be applied to the
+            // stale edition only (the deleter resolved the key before the relocation and marked
+            // the stale anchor after the updater's last waitingToBeFreed check)
+            const bool racedWithUpdate = d.gen < 0 && genIsFresh[g] && (!genUpdateClosedAt[g] || d.start < genUpdateClosedAt[g]);
             if (sameTarget)
-                Sched::failRun("deleted-entry-opened", where(me, what, fileno) + " key " + std::to_string(key) + " deleted during [" + std::to_string(d.start) + "," + std::to_string(d.end) + "], read started at " + std::to_string(startedAt));
+                Sched::failRun(racedWithUpdate ? "deleted-entry-opened-after-delete-raced-with-header-update" : "deleted-entry-opened", where(me, what, fileno) + " key " + std::to_string(key) + " deleted during [" + std::to_string(d.start) + "," + std::to_string(d.end) + "], read started at " + std::to_string(startedAt));
         }
         readers.push_back(ReaderRec{me, fileno, g, {}});
         walkAndRecord(me, fileno);
@@ -397,6 +405,7 @@ struct World {
         const int g = newGeneration(freshNo, op.key);
         genKey[g] = op.key; // openForUpdating() has set the fresh anchor from the entry
         genKeyedAt[g] = ++clock;
+        genIsFresh[g] = 1;
         Sched::point();
         SliceId last = -1;
         const SliceId staleStart = update.stale.anchor->start;
@@ -421,6 +430,7 @@ struct World {
         verifyAndForget(me, staleNo);
         writerOf[freshNo] = -1;
         m.closeForUpdating(update);
+        genUpdateClosedAt[g] = ++clock;
         ++st.updatesClosed;
     }
 
